@@ -40,8 +40,8 @@ func (w *World) remoteAnchors() *remoteAnchors {
 	a.rReceive = w.Method("remote", "streamReader", "Receive")
 	a.sendLocal = w.Method("actor", "Engine", "SendLocal")
 	if a.wStart != nil {
-		for _, b := range a.wStart.Blocks {
-			for _, in := range b.Instrs {
+		for _, in := range w.insOf(a.wStart) {
+			{
 				if c := callOf(in); c != nil && c.StaticCallee() != nil && c.StaticCallee().Signature.Recv() != nil {
 					if n, _ := structOf(c.StaticCallee().Signature.Recv().Type()); sameNamed(n, a.writer) {
 						a.wInit = c.StaticCallee()
@@ -83,8 +83,8 @@ func (a *remoteAnchors) fail(r *Report, rule string) bool {
 // allocsOf returns the struct literals of type named built in fn.
 func (w *World) allocsOf(fn *ssa.Function, named *types.Named) []*ssa.Alloc {
 	var out []*ssa.Alloc
-	for _, b := range fn.Blocks {
-		for _, in := range b.Instrs {
+	for _, in := range w.insOf(fn) {
+		{
 			if al, ok := in.(*ssa.Alloc); ok {
 				if n, _ := structOf(al.Type()); sameNamed(n, named) {
 					out = append(out, al)
@@ -137,7 +137,7 @@ func checkC15(w *World, r *Report) {
 	if b := w.holder(a.wInvoke, func(f *ssa.Function) bool { return len(w.allocsOf(f, a.envT)) == 1 }); b != nil {
 		W = b
 	}
-	g := w.FG(W)
+	g := w.FGI(W)
 	site := w.fnPos(W)
 	envs := w.allocsOf(W, a.envT)
 	msgs := w.allocsOf(W, a.msgT)
@@ -153,13 +153,13 @@ func checkC15(w *World, r *Report) {
 	}
 	// the envelope is what is sent
 	sent := false
-	ig := w.FG(a.wInvoke)
+	ig := w.FGI(a.wInvoke)
 	for _, in := range ig.ins {
 		if c := callOf(in); c != nil && c.IsInvoke() && c.Method.Name() == "Send" && len(c.Args) == 1 {
 			if _, isCall := in.(*ssa.Call); !isCall {
 				continue
 			}
-			if c.Args[0] == ssa.Value(envs[0]) {
+			if w.resolve(c.Args[0]) == ssa.Value(envs[0]) {
 				sent = true
 			}
 			if bc, isC := c.Args[0].(*ssa.Call); isC && W != a.wInvoke && bc.Call.StaticCallee() == W {
@@ -373,7 +373,7 @@ func checkC15(w *World, r *Report) {
 		okCont := true
 		var sendNode []bool = make([]bool, len(g.ins))
 		for i, in := range g.ins {
-			if c := callOf(in); c != nil && c.IsInvoke() && c.Method.Name() == "Send" && len(c.Args) == 1 && c.Args[0] == ssa.Value(envs[0]) {
+			if c := callOf(in); c != nil && c.IsInvoke() && c.Method.Name() == "Send" && len(c.Args) == 1 && w.resolve(c.Args[0]) == ssa.Value(envs[0]) {
 				sendNode[i] = true
 			}
 		}
@@ -420,8 +420,8 @@ func checkC15(w *World, r *Report) {
 			}
 			n++
 			bad := ""
-			for _, b := range fn.Blocks {
-				for _, in := range b.Instrs {
+			for _, in := range w.insOf(fn) {
+				{
 					if ta, ok := in.(*ssa.TypeAssert); ok && !ta.CommaOk && w.pathOf(ta.X) == "P1" {
 						bad = w.pos(ta.Pos())
 					}
@@ -450,7 +450,7 @@ func checkC15(w *World, r *Report) {
 }
 
 func checkLookupHelper(w *World, r *Report, L *ssa.Function) {
-	g := w.FG(L)
+	g := w.FGI(L)
 	site := w.fnPos(L)
 	name := fname(L)
 	var lk *ssa.Lookup
@@ -565,7 +565,7 @@ func checkReaderDelivery(w *World, r *Report, a *remoteAnchors, rule string) {
 	if d := w.holder(a.rReceive, func(f *ssa.Function) bool { return len(w.callsIn(f, EvCall("SendLocal", a.sendLocal))) > 0 }); d != nil {
 		R = d
 	}
-	g := w.FG(R)
+	g := w.FGI(R)
 	site := w.fnPos(R)
 	pairs := map[string]string{}
 	for _, in := range g.ins {
@@ -663,7 +663,7 @@ func (w *World) validIndexHelper(fn *ssa.Function) bool {
 	if fn == nil || fn.Blocks == nil || len(fn.Params) != 2 {
 		return false
 	}
-	g := w.FG(fn)
+	g := w.FGI(fn)
 	nonNeg, _ := g.CondEdges(func(v ssa.Value) (bool, bool) {
 		b, ok := v.(*ssa.BinOp)
 		if !ok {
@@ -741,8 +741,8 @@ func checkC16(w *World, r *Report) {
 			return
 		}
 		reach[fn] = true
-		for _, b := range fn.Blocks {
-			for _, in := range b.Instrs {
+		for _, in := range w.insOf(fn) {
+			{
 				if c := callOf(in); c != nil {
 					visit(c.StaticCallee())
 				}
@@ -758,7 +758,7 @@ func checkC16(w *World, r *Report) {
 	}
 	n := 0
 	for fn := range reach {
-		g := w.FG(fn)
+		g := w.FGI(fn)
 		for i, in := range g.ins {
 			ia, ok := in.(*ssa.IndexAddr)
 			if !ok {
@@ -827,7 +827,7 @@ func checkC16(w *World, r *Report) {
 	}
 	// R2
 	for _, fn := range sortedFuncs(reach) {
-		g := w.FG(fn)
+		g := w.FGI(fn)
 		var bad []string
 		for _, in := range g.ins {
 			switch x := in.(type) {
@@ -860,7 +860,7 @@ func checkC16(w *World, r *Report) {
 			cands = append(cands, d)
 		}
 		for _, F := range cands {
-		g := w.FG(F)
+		g := w.FGI(F)
 		errEdges, _ := g.CondEdges(func(v ssa.Value) (bool, bool) {
 			b, ok := v.(*ssa.BinOp)
 			if !ok || b.Op != token.NEQ {
@@ -911,8 +911,8 @@ func checkC16(w *World, r *Report) {
 		n++
 		bad := ""
 		for _, ff := range w.family(fn) {
-			for _, b := range ff.Blocks {
-				for _, in := range b.Instrs {
+			for _, in := range w.insOf(ff) {
+				{
 					if ta, ok := in.(*ssa.TypeAssert); ok && !ta.CommaOk {
 						bad = w.pos(ta.Pos())
 					}
@@ -930,7 +930,7 @@ func checkC16(w *World, r *Report) {
 		if !w.isLib(fn) || fnPkgPath(fn) != modPath+"/remote" || strings.Contains(w.Fset.Position(fn.Pos()).Filename, ".pb.go") {
 			continue
 		}
-		g := w.FG(fn)
+		g := w.FGI(fn)
 		for _, in := range g.ins {
 			ta, ok := in.(*ssa.TypeAssert)
 			if !ok || !ta.CommaOk || ta.Referrers() == nil {
@@ -1034,7 +1034,7 @@ func checkC17(w *World, r *Report) {
 	if deliver == nil || rrecv == nil {
 		r.Unknown("C17.R2", "router", "router methods", "-", "streamRouter.deliverStream / Receive not found")
 	} else {
-		g := w.FG(deliver)
+		g := w.FGI(deliver)
 		site := w.fnPos(deliver)
 		var lk *ssa.Lookup
 		for _, in := range g.ins {
@@ -1090,7 +1090,7 @@ func checkC17(w *World, r *Report) {
 	}
 	// R3
 	{
-		ig := w.FG(a.wInit)
+		ig := w.FGI(a.wInit)
 		site := w.fnPos(a.wInit)
 		S := w.Nodes(ig, EvCall("Shutdown", a.wShutdown), true)
 		noConn, _ := ig.CondEdges(func(v ssa.Value) (bool, bool) {
@@ -1142,7 +1142,7 @@ func checkC17(w *World, r *Report) {
 			if gi, ok := in.(*ssa.Go); ok {
 				if mc, ok := gi.Call.Value.(*ssa.MakeClosure); ok {
 					cf := mc.Fn.(*ssa.Function)
-					cg := w.FG(cf)
+					cg := w.FGI(cf)
 					if cg.AfterEntry(w.Nodes(cg, EvCall("Shutdown", a.wShutdown), true)) {
 						for _, x := range cg.ins {
 							if u, ok := x.(*ssa.UnOp); ok && u.Op == token.ARROW && strings.Contains(w.pathOf(u.X), "Closed(") {
@@ -1155,7 +1155,7 @@ func checkC17(w *World, r *Report) {
 		}
 		r.Check(okLC, "C17.R3", fname(a.wInit)+":connection-lost", "a watcher goroutine shuts the writer down when the connection closes", site, "a lost connection is never noticed: later sends go to a dead stream forever")
 		// Start: inbox first, then init
-		sg := w.FG(a.wStart)
+		sg := w.FGI(a.wStart)
 		IS := w.Nodes(sg, EvInvoke("Inboxer.Start", w.IfaceMethod("actor", "Inboxer", "Start")), true)
 		okS := sg.AfterEntry(IS)
 		for _, ci := range w.callsIn(a.wStart, EvCall("init", a.wInit)) {
@@ -1178,7 +1178,7 @@ func checkC17(w *World, r *Report) {
 		}
 		r.Check(okS, "C17.R3", fname(a.wStart)+":inbox-then-dial", "the writer's inbox is started (with the writer as processer) and the connection is dialled synchronously, on every path", w.fnPos(a.wStart), "the writer never consumes its inbox, or it starts consuming before the stream exists (nil stream in Invoke)")
 		// Shutdown
-		hg := w.FG(a.wShutdown)
+		hg := w.FGI(a.wShutdown)
 		hs := w.fnPos(a.wShutdown)
 		w.checkRow(r, row{rule: "C17.R3", fn: a.wShutdown, callee: EvCall("Engine.Send", eSend), name: "Engine.Send",
 			args: []string{"P0.engine", "P0.routerPID", "lit:RemoteUnreachableEvent{ListenAddr=P0.writeToAddr}"}, why: "The router is not told that this address is unreachable: it keeps the dead writer."})
@@ -1220,7 +1220,7 @@ func checkC17(w *World, r *Report) {
 		if b := w.holder(a.wInvoke, func(f *ssa.Function) bool { return len(w.allocsOf(f, a.envT)) == 1 }); b != nil {
 			W = b
 		}
-		wg := w.FG(W)
+		wg := w.FGI(W)
 		sendN := make([]bool, len(wg.ins))
 		for i, in := range wg.ins {
 			if c := callOf(in); c != nil && c.IsInvoke() && c.Method.Name() == "Send" && len(c.Args) == 1 {
@@ -1256,7 +1256,7 @@ func checkC17(w *World, r *Report) {
 		r.Check(ok, "C17.R6", fname(W)+":skip-keeps-the-batch", "after skipping a message the rest of the batch is still written to the stream", w.fnPos(W),
 			"one rejected message makes Invoke return: the other messages of the batch are neither delivered nor dead-lettered")
 		W = a.wInvoke
-		wg = w.FG(W)
+		wg = w.FGI(W)
 		eof, _ := wg.CondEdges(func(v ssa.Value) (bool, bool) {
 			p := w.pathOf(v)
 			return true, strings.HasPrefix(p, "call:errors.Is(call:DRPCRemote_ReceiveStream.Send(") && strings.HasSuffix(p, ",G:EOF)")
@@ -1290,8 +1290,8 @@ func checkC17(w *World, r *Report) {
 		r.Unknown("C17.R4", "router", "router terminate handler", "-", "not found")
 	} else {
 		ok := false
-		for _, b := range term.Blocks {
-			for _, in := range b.Instrs {
+		for _, in := range w.insOf(term) {
+			{
 				if c, isC := in.(*ssa.Call); isC {
 					if args, isD := isBuiltinCall(c, "delete"); isD && w.pathOf(args[0]) == "P0.streams" && w.pathOf(args[1]) == "P1.ListenAddr" {
 						ok = true
@@ -1299,7 +1299,7 @@ func checkC17(w *World, r *Report) {
 				}
 			}
 		}
-		tg := w.FG(term)
+		tg := w.FGI(term)
 		D := make([]bool, len(tg.ins))
 		for i, in := range tg.ins {
 			if c, isC := in.(*ssa.Call); isC {
@@ -1356,7 +1356,7 @@ func checkC17(w *World, r *Report) {
 		}
 		stores := func(fn *ssa.Function) map[string]int {
 			out := map[string]int{}
-			g := w.FG(fn)
+			g := w.FGI(fn)
 			for i, in := range g.ins {
 				if c := callOf(in); c != nil && c.StaticCallee() != nil && strings.HasSuffix(c.StaticCallee().String(), "Uint32).Store") && len(c.Args) == 2 && w.pathOf(c.Args[0]) == "&P0.state" {
 					out[constStr(c.Args[1])] = i
@@ -1372,7 +1372,7 @@ func checkC17(w *World, r *Report) {
 				initK = k
 			}
 		}
-		sg := w.FG(rstart)
+		sg := w.FGI(rstart)
 		eq, ne := stateEdges(sg)
 		st := stores(rstart)
 		runningK := ""
@@ -1408,7 +1408,7 @@ func checkC17(w *World, r *Report) {
 			}
 		}
 		r.Check(ok, "C17.R5", fname(rstart)+":only-from-initialized", "Start does nothing unless the state is 'initialized', and then moves it on", w.fnPos(rstart), detail)
-		pg := w.FG(rstop)
+		pg := w.FGI(rstop)
 		peq, pne := stateEdges(pg)
 		pst := stores(rstop)
 		ok2 := runningK != "" && len(peq[runningK]) > 0 && len(pst) == 1
@@ -1467,7 +1467,7 @@ func checkC17(w *World, r *Report) {
 		okG := false
 		okC := false
 		for _, af := range rstart.AnonFuncs {
-			ag := w.FG(af)
+			ag := w.FGI(af)
 			for _, d := range ag.defers {
 				if f := ag.ins[d].(*ssa.Defer).Call.StaticCallee(); f != nil && strings.HasSuffix(f.String(), "WaitGroup).Done") {
 					for _, in := range ag.ins {
@@ -1497,7 +1497,7 @@ func checkC17(w *World, r *Report) {
 
 func stores2(w *World, fn *ssa.Function) map[string]int {
 	out := map[string]int{}
-	g := w.FG(fn)
+	g := w.FGI(fn)
 	for i, in := range g.ins {
 		if c := callOf(in); c != nil && c.StaticCallee() != nil && strings.HasSuffix(c.StaticCallee().String(), "Uint32).Store") && len(c.Args) == 2 {
 			out[constStr(c.Args[1])] = i
